@@ -361,9 +361,10 @@ def g6_implicit(ctx):
     ins = [(bid, t) for bid, t in b.calls(r'Vec::<.*>::insert$') if render(b.expr(t['args'][0])).endswith('.tokens')]
     if len(ins) != 2:
         raise AnchorLost('missing_token_adder: expected two inserts into tokens, found %d' % len(ins))
+    from ..facts import implied_conds
     for bid, t in ins:
         val = render(b.expr(t['args'][2]))
-        conds = b.cond_text(bid)
+        conds = b.cond_text(bid) + [c for c in implied_conds(b, bid) if c not in b.cond_text(bid)]
         if re.fullmatch(r'Rc::new\(types::TokenType::Number\{0\.0, types::NumberType::Decimal\{\}\}\)', val):
             # guard: the token at the insertion point is an operator AND that operator is a sign
             tadt = ctx.facts.adts['types::TokenType']
